@@ -60,4 +60,27 @@ def inject (args : List String) : String :=
       | some ls => String.intercalate ";" (ls.map fun (l, is) => s!"{l}:" ++ String.intercalate "," (is.map toString))
   | _ => "bad-op"
 
+/-- op: carets {offs:[[byte offset of every rune] per line], diags:[...]} → per written line `line:i=row,...;` with `_` for a blank -/
+def carets (args : List String) : String :=
+  match args with
+  | [js] => match Json.parse js with
+    | .error _ => "bad-op"
+    | .ok j =>
+      let offs : List (List Nat) := match j.getObjValD "offs" with
+        | .arr a => a.toList.map fun l => match l with
+          | .arr b => b.toList.map fun x => x.getNat?.toOption.getD 0
+          | _ => []
+        | _ => []
+      let ds : List Pint.Inject.Diag := match j.getObjValD "diags" with
+        | .arr a => a.toList.map fun d =>
+          { pos := prsOf (d.getObjValD "prs"), firstCol := (d.getObjValD "first").getInt?.toOption.getD 0,
+            lastCol := (d.getObjValD "last").getInt?.toOption.getD 0 }
+        | _ => []
+      match Pint.Inject.inject offs.length ds with
+      | none => "PANIC"
+      | some ls => String.intercalate ";" (ls.map fun (l, _) =>
+          s!"{l}:" ++ String.intercalate "," ((Pint.Inject.caretRows ds l (offs.getD (l - 1) [])).map fun (i, row) =>
+            s!"{i}=" ++ String.mk (row.map fun c => if c == ' ' then '_' else c)))
+  | _ => "bad-op"
+
 end Driver.C06
